@@ -407,6 +407,13 @@ def body_fuzz(case):
         except toml_target.Finding as e:
             raise Violation(str(e)) from e
         return {"replayed_input"}
+    deps = os.path.join(VERIF_DIR, ".deps")
+    probe = subprocess.run([sys.executable, "-c", "import atheris"], env=dict(os.environ, PYTHONPATH=deps), capture_output=True)
+    if probe.returncode != 0:  # setup.sh normally did this; repeat it here (offline wheelhouse) rather than fail
+        subprocess.run([sys.executable, "-m", "pip", "install", "--no-index", "--find-links", "/opt/veriftools/wheels", "--target", deps, "atheris"], capture_output=True)
+        probe = subprocess.run([sys.executable, "-c", "import atheris"], env=dict(os.environ, PYTHONPATH=deps), capture_output=True)
+        if probe.returncode != 0:
+            raise HarnessError("atheris is not available (run ./setup.sh): " + probe.stderr.decode()[-300:])
     work = tempfile.mkdtemp(prefix="nssverif_c15_fuzz_")
     try:
         corpus = os.path.join(work, "corpus")
